@@ -91,11 +91,11 @@ Proof.
   destruct t as [|b r]; [tauto|]. intros Hb Hp. cbn [app] in *. cbn [p_value].
   assert (Hws : skip_ws (b :: r ++ rest) = b :: r ++ rest).
   { cbn [skip_ws]. destruct Hb as [Hb| ->]; [destruct b; try discriminate; reflexivity|reflexivity]. }
-  Show. rewrite Hws.
+  change ((b :: r) ++ rest) with (b :: r ++ rest). rewrite Hws.
   assert (Hne : Byte.eqb b LBRACE = false /\ Byte.eqb b LBRACK = false /\ Byte.eqb b QUOTE = false /\
                 Byte.eqb b x74 = false /\ Byte.eqb b x66 = false /\ Byte.eqb b x6e = false).
   { destruct Hb as [Hb| ->]; [destruct b; try discriminate; repeat split; reflexivity|repeat split; reflexivity]. }
-  destruct Hne as (-> & -> & -> & -> & -> & ->). now rewrite Hp.
+  destruct Hne as (-> & -> & -> & -> & -> & ->). change ((b :: r) ++ rest) with (b :: r ++ rest) in Hp. now rewrite Hp.
 Qed.
 Lemma print_Z_head z : match print_Z z with b :: _ => is_digit b = true \/ b = x2d | [] => False end.
 Proof.
